@@ -226,6 +226,35 @@ func scalarFaults(name string, env *univ.Env, srv *drive.Server, cr *childResult
 		cr.Distinct = append(cr.Distinct, name+"|scalar|unencodable|"+acc)
 	}
 
+	// --- a panic while a DEFERRED payload is serialized, over the streaming transports: the request
+	// ends, the process survives, the next request is served
+	for _, acc := range []string{"multipart/mixed", "text/event-stream"} {
+		for _, q := range []string{`{ scalar ... @defer { xboom(b: "mpanic:7") } }`, `{ scalar ... @defer(label: "d") { xboom(b: "minvalid:7") } }`} {
+			b, _ := json.Marshal(map[string]any{"query": q})
+			req, _ := http.NewRequest("POST", ts.URL, bytes.NewReader(b))
+			req.Header.Set("Content-Type", "application/json")
+			req.Header.Set("Accept", acc)
+			t0 := time.Now()
+			resp, err := (&http.Client{Timeout: 15 * time.Second}).Do(req)
+			var rb []byte
+			if err == nil {
+				rb, err = io.ReadAll(resp.Body)
+				resp.Body.Close()
+			}
+			cr.Evals++
+			if err != nil && time.Since(t0) > 14*time.Second {
+				viol("a deferred payload whose serialization fails ("+acc+") never ended the request", map[string]any{"query": q, "error": err.Error(), "bytes_received": string(rb)})
+			}
+			time.Sleep(20 * time.Millisecond) // a late writer of that response would act now
+			status, body = post(`{ scalar xboom(b: "ok") }`)
+			if status != 200 || !strings.Contains(body, `"xboom":"ok"`) {
+				viol("server does not answer correctly after a deferred payload whose serialization failed ("+acc+")", body)
+			}
+			count("fault_in_deferred_payload_serialization_"+acc, 1)
+		}
+		cr.Distinct = append(cr.Distinct, name+"|scalar|deferred-serialization|"+acc)
+	}
+
 	for _, proto := range []string{"graphql-ws", "graphql-transport-ws"} {
 		d := websocket.Dialer{Subprotocols: []string{proto}}
 		c, _, err := d.Dial("ws"+strings.TrimPrefix(ts.URL, "http"), nil)
